@@ -263,7 +263,7 @@ transformer reads are exactly `expected c`.  Hypotheses: `wellFormed`, and the n
 (`strconv.ParseFloat` reads the numerals of `c` as written). -/
 theorem p4_parse_agree (c : Crs) (st : Style) (hw : wellFormed c = true) (hn : numeralsRead c = true)
     (hlo : st.leaveOut = 0) (hf : SpheroidFacts c.a.toRat c.rf.toRat) :
-    ∃ r, parse (α := XR) (toProj4 c st) = .ok r ∧ view r = some (expected c) := by
+    ∃ r, parse (α := XR) (toProj4 c st) = .ok r ∧ view r = some (expected c) ∧ r.datumCode = lowerCode (dCode c []) := by
   have hnum : ∀ d ∈ decsOf c, NumOK d := numOK_mem c hn
   obtain ⟨_, _, _, _, _, hdw⟩ := wf_parts c hw
   have hgood := toks_good c st hdw hnum
@@ -303,6 +303,8 @@ theorem p4_parse_agree (c : Crs) (st : Style) (hw : wellFormed c = true) (hn : n
     rw [foldKVs_toks c st hlo hdw hnum]
     rfl
   rw [hparse, htok]
-  exact derive_view c _ hf hdw (p4_coreOK c st hw)
+  obtain ⟨r, h1, h2, h3⟩ := derive_view c _ hf hdw (p4_coreOK c st hw)
+  refine ⟨r, h1, h2, ?_⟩
+  rw [h3, p4_result]
 
 end GeomV.C20
